@@ -1323,7 +1323,24 @@ sf_command	(SNDFILE *sndfile, int command, void *data, int datasize)
 				return SF_FALSE ;
 				} ;
 
-			if (!broadcast_var_set (psf, data, datasize))
+			if (psf->have_written)
+			{	/*
+				**	Audio data follows the header, so the chunk must keep its size.
+				**	Build the new chunk aside and only accept it if it fits exactly.
+				*/
+				SF_BROADCAST_INFO_16K *old_info = psf->broadcast_16k ;
+
+				psf->broadcast_16k = NULL ;
+				if (!broadcast_var_set (psf, data, datasize) || psf->broadcast_16k->coding_history_size != old_info->coding_history_size)
+				{	if (psf->broadcast_16k != NULL)
+						psf->error = SFE_CMD_HAS_DATA ;
+					free (psf->broadcast_16k) ;
+					psf->broadcast_16k = old_info ;
+					return SF_FALSE ;
+					} ;
+				free (old_info) ;
+				}
+			else if (!broadcast_var_set (psf, data, datasize))
 				return SF_FALSE ;
 
 			if (psf->write_header)
@@ -1352,7 +1369,21 @@ sf_command	(SNDFILE *sndfile, int command, void *data, int datasize)
 			{	psf->error = SFE_CMD_HAS_DATA ;
 				return SF_FALSE ;
 				} ;
-			if (!cart_var_set (psf, data, datasize))
+			if (psf->have_written)
+			{	/* As for the broadcast info : the chunk must keep its size. */
+				SF_CART_INFO_16K *old_info = psf->cart_16k ;
+
+				psf->cart_16k = NULL ;
+				if (!cart_var_set (psf, data, datasize) || psf->cart_16k->tag_text_size != old_info->tag_text_size)
+				{	if (psf->cart_16k != NULL)
+						psf->error = SFE_CMD_HAS_DATA ;
+					free (psf->cart_16k) ;
+					psf->cart_16k = old_info ;
+					return SF_FALSE ;
+					} ;
+				free (old_info) ;
+				}
+			else if (!cart_var_set (psf, data, datasize))
 				return SF_FALSE ;
 			if (psf->write_header)
 				psf->write_header (psf, SF_TRUE) ;
